@@ -1,9 +1,9 @@
 /-
   C10 — Phase-jump time and retarget intervals are honoured.
 
-  Stated on the scheduler model (PulserModel/Schedule.lean).  In EOM mode the code (and
-  hence the theorem) uses twice the *channel's* rise time; the property's "twice the EOM
-  rise time" differs when the EOM bandwidth is below the channel's (known finding F17).
+  Stated on the scheduler model (PulserModel/Schedule.lean).  In EOM mode the wait is at least
+  twice the larger of the channel's and the EOM's rise times (after the repair of F17: the code
+  used the channel's only, which is too short when the EOM is the slower modulator).
 -/
 import Proofs.Protocol
 import Proofs.SeqInv
@@ -16,7 +16,7 @@ namespace C10
 
 /-- **Phase-jump gap.**  Unless added with 'no-delay', a pulse whose phase differs from the
 phase of the previous (non detuned-delay) pulse `lp` of the channel starts at least
-`max(phase_jump_time, 2·rise_time·[EOM mode]) + fall_time(lp)` after `lp` ended. -/
+`max(phase_jump_time, 2·max(rise_time, EOM rise_time)·[EOM mode]) + fall_time(lp)` after `lp` ended. -/
 theorem phase_jump_gap {ms : Option Nat} {c : ChanState} {others : List ChanState}
     {p : PulseRec} {barriers : List Int} {proto : Protocol} {drift : Option Drift} {blk : Bool}
     {slot last ls : Slot} {lp : PulseRec}
@@ -44,7 +44,7 @@ theorem phase_jump_gap {ms : Option Nat} {c : ChanState} {others : List ChanStat
 /-- **Phase-jump gap at the level of the API call.**  When `seq.add(pulse, channel, protocol)`
 succeeds with 'min-delay' or 'wait-for-all' and the pulse as scheduled has a phase different from
 the channel's previous (non detuned-delay) pulse `lp`, the appended pulse starts at least
-`max(phase_jump_time, 2·rise_time·[EOM mode]) + fall_time(lp)` after `lp` ended. -/
+`max(phase_jump_time, 2·max(rise_time, EOM rise_time)·[EOM mode]) + fall_time(lp)` after `lp` ended. -/
 theorem add_phase_jump_gap (s : SeqState) (hi : SeqInv s) (p : PulseIn) (n : ChName)
     (proto : Protocol) (hproto : proto ≠ .noDelay)
     (hok : (addCore s p n (some proto) none).err = none) :
